@@ -2,9 +2,11 @@
 (* I->S for C10: a recorded run of the real sender (zone + commits served    *)
 (* through XfrMiddlewareSvc) and of the real receiver (interpreter + updater *)
 (* on a second zone) must be explained by Xfr.tla:                           *)
-(*  new/commit  walk() shows exactly the content written; the diff a commit  *)
-(*              reports, applied to the content before, gives the content    *)
-(*              after (property clause c)                                    *)
+(*  new/commit  walk() shows exactly the content written, TTLs included; the  *)
+(*              diff a commit reports is the one the specification's diff    *)
+(*              capture derives for a session that rewrites every changed    *)
+(*              RRset once and, applied to the content before, gives the     *)
+(*              content after (property clause c)                            *)
 (*  xfer        every response message passes check_response in sequence,    *)
 (*              the concatenated answer sections *denote* (declarative       *)
 (*              oracle) the sender's history from the client's version on,   *)
@@ -13,7 +15,7 @@
 EXTENDS Xfr, Json, IOUtils
 
 Rec == ndJsonDeserialize(IOEnv.TRACE)
-TU == 1..32                       \* record universe of the recorder
+TU == 1..32                       \* record universe of the recorder (base ids)
 
 \* open deviations are handed over by the driver as environment variables
 EnvDev == {d \in DevNames : d \in DOMAIN IOEnv}
@@ -39,11 +41,23 @@ DiffOk(before, after, d) ==
        /\ SortS(BagMinus(SortS(before.recs \o before.soa), d.rem) \o d.add) = SortS(after.recs \o after.soa)
        /\ BagMinus(d.rem, SortS(before.recs \o before.soa)) = <<>>
 
+\* what Xfr.tla's diff capture reports for a write session that takes the
+\* zone from view b to view a rewriting every changed RRset once (with the
+\* open deviations: as built)
+SessionDiff(b, a) ==
+  LET K == Keys(SeqSet(b.recs) \cup SeqSet(a.recs))
+      db == KeyNetDb(RrOf(K, SeqSet(b.recs)), RrOf(K, SeqSet(a.recs)))
+  IN [s |-> SerialOf(b.soa), e |-> SerialOf(a.soa),
+      add |-> SortS(FlatSorted(db.add) \o a.soa), rem |-> SortS(FlatSorted(db.rem) \o b.soa)]
+
 T_Commit == /\ IsEv("commit")
             /\ LET b == MV(Rec[l].before)
                    a == MV(Rec[l].after)
+                   d == Rec[l].diff
                IN /\ a = [soa |-> <<100 + Rec[l].serial>>, recs |-> Rec[l].want]
-                  /\ DiffOk(b, a, Rec[l].diff)
+                  /\ "none" \notin DOMAIN d
+                  /\ [s |-> d.s, e |-> d.e, add |-> d.add, rem |-> d.rem] = SessionDiff(b, a)
+                  /\ ("D_zone_diff_ttl_change_lost" \notin EnvDev) => DiffOk(b, a, d)
             /\ UNCHANGED hist
 
 T_Hist == /\ IsEv("hist")
@@ -51,6 +65,18 @@ T_Hist == /\ IsEv("hist")
 
 VersionAt(i) == [soa |-> <<100 + hist[i].s>>, recs |-> hist[i].recs]
 LatestV == VersionAt(Len(hist))
+
+\* What the difference sequences the sender derives from its commits make of
+\* the client's version: the sender's history - unless a deviation of the
+\* diff capture is open, then what the deviant difference sets carry.
+HistC(i) == SeqSet(hist[i].recs)
+LibStep(C, i) ==
+  LET K == Keys(HistC(i) \cup HistC(i + 1))
+      db == KeyNetDb(RrOf(K, HistC(i)), RrOf(K, HistC(i + 1)))
+  IN OFold(OFold(C, FlatSorted(db.rem), TRUE), FlatSorted(db.add), FALSE)
+RECURSIVE Carried(_, _)
+Carried(from, j) == IF j = 0 THEN HistC(from) ELSE LibStep(Carried(from, j - 1), from + j - 1)
+ExpectV(from, j) == [soa |-> <<100 + hist[from + j].s>>, recs |-> SetToSeq(Carried(from, j))]
 
 T_Xfer ==
   /\ IsEv("xfer")
@@ -63,7 +89,9 @@ T_Xfer ==
          den == Denotes(ms, e.req, e.rold.soa, c0)
          run == RunStream(ContentOf(TU, e.rold.soa, c0), e.req, ms)
          known == e.req = 251 /\ e.from < Len(hist) /\ e.from >= 1
+         target == IF known THEN ExpectV(e.from, Len(hist) - e.from) ELSE LatestV
      IN /\ \A i \in 1..Len(ms) : e.msgs[i].parse_ok /\ e.msgs[i].arc = 0
+        /\ ("D_zone_diff_ttl_change_lost" \notin EnvDev) => target = LatestV
         \* sender: every message leaves the octets the request reserved (TSIG,
         \* OPT appended by outer middleware) within the 65535-octet TCP limit;
         \* a transfer larger than that budget is therefore split
@@ -71,11 +99,11 @@ T_Xfer ==
         /\ \A i \in 1..Len(ms) : e.sizes[i] + e.reserved <= 65535
         \* sender: the stream denotes the sender's zone / history
         /\ den.allValid /\ den.rd.complete /\ ~den.rd.bad
-        /\ den.rd.versions[Len(den.rd.versions)] = LatestV
-        /\ known => den.rd.versions = [i \in 1..(Len(hist) - e.from) |-> VersionAt(e.from + i)]
+        /\ den.rd.versions[Len(den.rd.versions)] = target
+        /\ known => den.rd.versions = [i \in 1..(Len(hist) - e.from) |-> ExpectV(e.from, i)]
         /\ MV(e.sender) = LatestV
         \* receiver (model): accepts every message, finishes, ends in the sender's zone
-        /\ ~Rejected(run) /\ Finished(run) /\ run.final = LatestV
+        /\ ~Rejected(run) /\ Finished(run) /\ run.final = target
         /\ Range(AllPubs(run)) \subseteq {VersionView(e.rold.soa, c0)} \cup Range(den.rd.versions)
         \* receiver (real): same final content, same published content after every message
         /\ ~e.rpanic
@@ -135,10 +163,39 @@ T_XferUdp ==
         /\ CheckResponse(IpNone, ms[1]) /\ IsAnswer(251, ms[1])
         /\ \/ ms[1].an = <<LatestV.soa[1]>>
            \/ /\ den.allValid /\ den.rd.complete /\ ~den.rd.bad
-              /\ den.rd.versions = [i \in 1..(Len(hist) - e.from) |-> VersionAt(e.from + i)]
+              /\ den.rd.versions = [i \in 1..(Len(hist) - e.from) |-> ExpectV(e.from, i)]
   /\ UNCHANGED hist
 
-TNext == T_New \/ T_Commit \/ T_Hist \/ T_Xfer \/ T_XferBad \/ T_XferUdp
+\* IXFR from a client that holds the server's current version or claims a
+\* newer one: the lone SOA (RFC 1995 2 and 4), which the receiver reads as
+\* "nothing to do / retry", never as a transfer; the client's zone stays as
+\* it is
+T_XferUtd ==
+  /\ IsEv("xfer_utd")
+  /\ LET e == Rec[l]
+         ms == [i \in 1..Len(e.msgs) |-> [id |-> e.msgs[i].id, qr |-> e.msgs[i].qr, op |-> e.msgs[i].op,
+                                          rc |-> e.msgs[i].rc, tc |-> e.msgs[i].tc, qd |-> e.msgs[i].qd,
+                                          qdc |-> e.msgs[i].qdc, an |-> e.msgs[i].an,
+                                          anc |-> e.msgs[i].anc, nsc |-> e.msgs[i].nsc]]
+         c0 == SeqSet(e.rold.recs)
+         run == RunStream(ContentOf(TU, e.rold.soa, c0), 251, ms)
+         old == VersionView(e.rold.soa, c0)
+     IN /\ e.req = 251 /\ e.from >= Len(hist)
+        /\ Len(ms) = 1 /\ e.msgs[1].parse_ok /\ e.msgs[1].arc = 0
+        /\ CheckResponse(IpNone, ms[1]) /\ IsAnswer(251, ms[1])
+        /\ ms[1].an = <<LatestV.soa[1]>>
+        /\ e.from = Len(hist) => old = LatestV
+        /\ ~Finished(run) /\ AllPubs(run) = <<>> /\ run.final = old
+        /\ ~e.rpanic
+        /\ MV(e.rfinal) = run.final
+        /\ Len(e.rsteps) = Len(run.steps)
+        /\ \A i \in 1..Len(run.steps) :
+              /\ MV(e.rsteps[i].pub) = run.steps[i].pub
+              /\ e.rsteps[i].ups = run.steps[i].ups
+              /\ e.rsteps[i].ir = run.steps[i].ir /\ e.rsteps[i].it = run.steps[i].it
+  /\ UNCHANGED hist
+
+TNext == T_New \/ T_Commit \/ T_Hist \/ T_Xfer \/ T_XferBad \/ T_XferUdp \/ T_XferUtd
 TSpec == TInit /\ [][TNext]_tvars
 
 Accepted ==
